@@ -382,7 +382,8 @@ class FM(LTerm):
                                              m.idx == self.base(sj) + pos)))
         self.note_source_member(sm)
         m.origin = (sm, pos)
-        if not self.is_map and Member.cur_gen[0] == 0 and not getattr(self, "_in_succ", False):
+        if (not self.is_map and Member.cur_gen[0] == 0 and not getattr(self, "_in_succ", False)
+                and self.interp.engine_opts.get("successor")):
             # successor instantiation: what the next source index contributes (so that "the last element of
             # the result comes from the last contributing source element" is derivable)
             self._in_succ = True
@@ -415,30 +416,8 @@ class FM(LTerm):
         self._mapped.append(sm)
 
     def touch(self, exprs, cond):
-        """trigger-based instantiation: every element  T.f(i)  of another list that an instantiated guard or
-        output mentions becomes an index of interest of T (its schematic facts are instantiated there)"""
-        ctx = self.ctx
-        owners = ctx.uf_owner
-        seen = set()
-        stack = [e for e in exprs if is_z3(e)]
-        found = []
-        while stack:
-            e = stack.pop()
-            k = e.get_id()
-            if k in seen:
-                continue
-            seen.add(k)
-            if z3.is_app(e):
-                d = e.decl()
-                if d.kind() == z3.Z3_OP_UNINTERPRETED and e.num_args() == 1:
-                    t = owners.get(d.name())
-                    if t is not None and t is not self:
-                        found.append((t, e.arg(0)))
-                stack.extend(e.children())
-        for t, idx in found:
-            if t.find_member(idx, cond) is None and not any(m.idx.eq(idx) for m in t.members):
-                rng = z3.And(cond, idx >= 0, idx < t.length())
-                t.new_member(rng, idx)
+        if self.interp.engine_opts.get("touch"):
+            self.ctx.touch(exprs, cond, skip=self)
 
     def out_k(self, j, k):
         cur = None
@@ -791,6 +770,7 @@ class Ctx:
         self._nlits = 0
         self.gs = {}
         self.templates = {}
+        self._grounding = False
         self.unify_fms = True
         self.fwd_budget = 1500
         if parent is not None:
@@ -939,11 +919,15 @@ class Ctx:
         """Instantiate schematic list facts on the member witnesses (to a fixpoint)."""
         changed = True
         rounds = 0
+        if self._grounding:
+            return  # no nested grounding (a fact being instantiated may itself evaluate under a scope)
+        self._grounding = True
         Member.deriving[0] += 1
         try:
             self._ground_loop()
         finally:
             Member.deriving[0] -= 1
+            self._grounding = False
 
     def _ground_loop(self):
         changed = True
@@ -1020,7 +1004,8 @@ class Ctx:
             for t in list(self.terms):
                 if id(t) not in flagged:
                     continue
-                if type(t).__name__ == "PairSpace" and t.source.kind == "adjzip":
+                if type(t).__name__ == "PairSpace" and t.source.kind == "adjzip" and \
+                        self.interp.engine_opts.get("pair_forward"):
                     # an element of the underlying list takes part in the pairs (i-1, i) and (i, i+1)
                     done = t.__dict__.setdefault("_fwd", set())
                     T = t.source.term
@@ -1063,7 +1048,7 @@ class Ctx:
                             Member.cur_gen[0] = 0
                         changed = True
                     t._fwd_n = len(t.src.members)
-                elif isinstance(t, Sorted):
+                elif isinstance(t, Sorted) and self.interp.engine_opts.get("sorted_forward"):
                     done = t.__dict__.setdefault("_fwd", set())
                     have = set(id(m.origin) for m in t.members if m.origin is not None)
                     for pm in list(t.inner.members):
@@ -1144,6 +1129,39 @@ class Ctx:
                                 self.assume(z3.Implies(z3.And(m1.cond, m2.cond, fc, m2.idx == m1.idx + 1),
                                                        self.inst2(t, fn, m1, m2)))
                 st[0], st[1], st[2], st[3] = M, A, P, J
+
+    def touch(self, exprs, cond, skip=None):
+        """trigger-based instantiation: every element  T.f(i)  of a list that the expressions mention becomes an
+        index of interest of T (valid where cond holds and i is in range)"""
+        owners = self.uf_owner
+        seen = set()
+        stack = [e for e in exprs if is_z3(e)]
+        found = []
+        while stack:
+            e = stack.pop()
+            k = e.get_id()
+            if k in seen:
+                continue
+            seen.add(k)
+            if z3.is_app(e):
+                d = e.decl()
+                if d.kind() == z3.Z3_OP_UNINTERPRETED and e.num_args() == 1:
+                    t = owners.get(d.name())
+                    if t is not None and t is not skip:
+                        found.append((t, e.arg(0)))
+                stack.extend(e.children())
+        for t, idx in found:
+            if not any(m.idx.eq(idx) for m in t.members):
+                t.new_member(z3.And(cond, idx >= 0, idx < t.length()), idx)
+
+    def eval_under(self, cond, thunk):
+        """evaluate thunk() (a pure computation returning z3 expressions) with cond assumed; the assumption and
+        any witnesses are discarded, the elements the result mentions are re-registered under cond"""
+        with self.scoped():
+            self.assume(cond)
+            r = thunk()
+        self.touch([r] if is_z3(r) else [x for x in (r if isinstance(r, (list, tuple)) else []) if is_z3(x)], cond)
+        return r
 
     # scoped proof attempts -------------------------------------------
     def scoped(self):
